@@ -48,8 +48,16 @@ ok = True
 try:
     env = dict(os.environ, PYTHONPATH=wt)
 
+    # demos written against the sub-agent's own worktree sometimes assert that path: point them at this one
+    import re
+
+    demo_src = re.sub(r"/tmp/w\d+/C\d\d_wt", wt, open(demo).read())
+    demo_run = wt + "_demo.py"
+    with open(demo_run, "w") as f:
+        f.write(demo_src)
+
     def run_demo():
-        r = subprocess.run(["/venv/bin/python", "-W", "ignore", demo], cwd=wt, env=env, capture_output=True, text=True, timeout=600)
+        r = subprocess.run(["/venv/bin/python", "-W", "ignore", demo_run], cwd=wt, env=env, capture_output=True, text=True, timeout=600)
         return r.returncode, (r.stdout + r.stderr)[-400:]
 
     rc0, out0 = run_demo()
@@ -110,4 +118,6 @@ try:
 finally:
     subprocess.run(["git", "-C", "/repo", "worktree", "remove", "--force", wt])
     shutil.rmtree(os.path.join("/tmp/verif_scratch", os.path.basename(wt)), ignore_errors=True)
+    if os.path.exists(wt + "_demo.py"):
+        os.remove(wt + "_demo.py")
 sys.exit(0 if ok else 2)
